@@ -113,8 +113,61 @@ GRAPH_KINDS = ("decision-chain", "bkm-chain", "itemdef-chain", "decision-lattice
 LATTICE_WIDTH = 4
 
 
+# ---- requirement cycles through every kind of edge, with logic that follows the cycle ----------------------------------------------
+# node kinds: D decision, B business knowledge model, S decision service. Edges: D-info->D (information requirement), D/B-know->B/S
+# (knowledge requirement, the logic invokes the required function), S-out/enc/in->D (output / encapsulated / input decision).
+CYCLE_EDGES = {("D", "D"): ["info"], ("D", "B"): ["know"], ("D", "S"): ["know"], ("B", "B"): ["know"], ("B", "S"): ["know"],
+               ("S", "D"): ["out", "enc", "in"]}
+
+
+def cycle_specs(maxlen=3):
+    """all cycles of 1..maxlen nodes over the node and edge kinds, as strings like 'D:know>S:in' (node:edge to the next node)"""
+    import itertools
+    out = []
+    for n in range(1, maxlen + 1):
+        for nodes in itertools.product("DBS", repeat=n):
+            pairs = [(nodes[i], nodes[(i + 1) % n]) for i in range(n)]
+            if not all(p in CYCLE_EDGES for p in pairs):
+                continue
+            for edges in itertools.product(*[CYCLE_EDGES[p] for p in pairs]):
+                spec = ">".join("%s:%s" % (nodes[i], edges[i]) for i in range(n))
+                rot = [">".join((spec.split(">") * 2)[k:k + n]) for k in range(n)]
+                if spec == min(rot):
+                    out.append(spec)
+    return out
+
+
+def cycle_model(spec):
+    """the model of one cycle: node i is named e<i>; every element's logic mentions / invokes the next one; services that have no output
+    decision on the cycle get the leaf decision `leaf` as output"""
+    steps = [x.split(":") for x in spec.split(">")]
+    n = len(steps)
+    lit = "<literalExpression><text>%s</text></literalExpression>"
+    els = ['<decision name="leaf" id="leaf"><variable name="leaf"/>' + lit % "1" + "</decision>"]
+    for i, (kind, edge) in enumerate(steps):
+        nxt, nkind = "e%d" % ((i + 1) % n), steps[(i + 1) % n][0]
+        me = "e%d" % i
+        # how this element's logic uses the next one: a required decision by its name; a function by a call (a service whose decision on the
+        # cycle is an INPUT decision takes it as its parameter)
+        call = nxt if edge == "info" else ("%s(0)" % nxt if nkind == "S" and steps[(i + 1) % n][1] == "in" else "%s()" % nxt)
+        if kind == "D":
+            req = ('<informationRequirement><requiredDecision href="#%s"/></informationRequirement>' % nxt if edge == "info" else
+                   '<knowledgeRequirement><requiredKnowledge href="#%s"/></knowledgeRequirement>' % nxt)
+            els.append('<decision name="%s" id="%s"><variable name="%s"/>%s%s</decision>' % (me, me, me, req, lit % ("if %s = 0 then 1 else 2" % call)))
+        elif kind == "B":
+            els.append('<businessKnowledgeModel name="%s" id="%s"><variable name="%s"/><knowledgeRequirement><requiredKnowledge href="#%s"/>'
+                       '</knowledgeRequirement><encapsulatedLogic>%s</encapsulatedLogic></businessKnowledgeModel>' % (me, me, me, nxt, lit % call))
+        else:
+            tag = {"out": "outputDecision", "enc": "encapsulatedDecision", "in": "inputDecision"}[edge]
+            parts = "" if edge == "out" else '<outputDecision href="#leaf"/>'
+            els.append('<decisionService name="%s" id="%s"><variable name="%s"/>%s<%s href="#%s"/></decisionService>' % (me, me, me, parts, tag, nxt))
+    return NEST_HEAD + "".join(els) + "</definitions>"
+
+
 def nested_model(kind, n):
     """A valid model whose only peculiarity is the nesting depth n of one construct."""
+    if kind.startswith("cycle:"):
+        return cycle_model(kind[6:])
     dec = '<decision name="d" id="d"><variable name="d"%s/>%s</decision>'
     lit = "<literalExpression><text>%s</text></literalExpression>"
     if kind.endswith("@ns"):
@@ -757,6 +810,10 @@ def graph_cases(ctx):
     for hp in ("U", "A", "P", "F", "R", "O", "C", "C+", "C<", "C>", "C#"):
         for n in (5, 20, 21, 22, 40, 64, 200):
             yield {"graph": "wide-table:" + hp, "depth": n}
+    # every requirement cycle of up to three elements, through every kind of edge, whose logic follows the cycle: refused when the
+    # evaluator is built, or evaluated without exhausting the stack
+    for spec in cycle_specs(3):
+        yield {"graph": "cycle:" + spec, "depth": len(spec.split(">"))}
     if ctx.thorough():
         # open findings (exponential in the number of layers / recursion as deep as the chain): shown, not searched further
         yield {"graph": "decision-chain", "depth": 20000}
